@@ -31,6 +31,27 @@ def c25Step (st : Option Acks) (line : String) : Option Acks × String :=
     | some n => let a' := handleAck a n; (some a', "ok " ++ showAcks a')
     | none => (st, "bad-op")
   | ["sent"], some a => let a' := sentAck a; (some a', "ok " ++ showAcks a')
+  | ["sweep", d, rs], some _ =>
+    match parseNat d, (rs.splitOn ",").mapM (fun part => match part.splitOn "-" with
+        | [x, y] => (match parseNat x, parseNat y with
+          | some x, some y => if s!"{x}-{y}" == part then some (({ s := (x : Int), e := (y : Int) } : Rg)) else none
+          | _, _ => none)
+        | _ => none) with
+    | some d, some set =>
+      let okSet := set.length ≥ 1 ∧ set.length ≤ 100 ∧ d < 4611686018427387904 ∧
+        (set.zip (({ s := -2, e := -2 } : Rg) :: set)).all (fun (r, p) => decide (p.e < r.s ∧ r.s < r.e ∧ r.e < 2305843009213693952))
+      if ¬ okSet then (st, "bad-op") else
+      match appendAckFrame set d 65536 with
+      | none => (st, "err full")
+      | some f =>
+        let full := 1 + szv f.largest + szv f.delay + 1 + szv f.firstRange +
+          (f.more.map fun (g, l) => szv g + szv l).foldl (· + ·) 0
+        let ks := (List.range (full + 3)).map fun avail =>
+          match appendAckFrame set d avail with
+          | none => "-1"
+          | some g => toString (g.more.length + 1)
+        (st, s!"ok full={full} k={",".intercalate ks}")
+    | _, _ => (st, "bad-op")
   | ["frame", av, d], some a =>
     match parseNat av, parseNat d with
     | some av, some d =>
